@@ -563,6 +563,17 @@ class C07(L1Prop):
             ops, g = rand_prefix(rng, rng.randint(6, length), nc, k % 4 == 0, True, True, obs)
             ops += ["reopen"] + [f"reread {c}" for c in range(1, nc + 1)]
             out.append(Case(f"c07-{k}", ops))
+        # a storage call fails while an accepted version is being read back: the answer may be an error — never that
+        # the version does not exist (gone / not-found), and afterwards it is read as ever
+        for k in range(sizes(tier, 6, 30)):
+            n = 2 + k % 4
+            ops = ["ensure 1"] + [f"av 1 {('nil' if k % 2 else 'fresh') if i == 0 else 'latest:1'} b:1,{i}" for i in range(n)]
+            for i in range(n):
+                par = "base:1" if i == 0 else f"ver:1:{i - 1}"
+                for idx in (0, 1, 2, 3):
+                    ops += [f"fault {idx}:before", f"gcv 1 {par}"]
+            ops += ["reread 1"]
+            out.append(Case(f"c07-readfault-{k}", ops, {"only": "sqlite", "faults": True, "readfault": True}))
         # other clients whose FIRST upload names a parent that stands in an arithmetic relation to the ids already
         # in use (the two client ids XORed or added, a client id XORed with the other client's latest version,
         # the other client's id itself): whatever becomes of that upload, every accepted version is still read
@@ -663,6 +674,8 @@ class C07(L1Prop):
                     fails.append(f"op {i}: version {added_id(ri)} was accepted as the child of {op.p} although {rec[(op.c, op.p)][0]} had been accepted as its child before")
                 rec.setdefault((op.c, op.p), (added_id(ri), op.p, op.data))
             if op.kind == "gcv" and (op.c, op.p) in rec:
+                if case.meta.get("readfault") and resp_kind(ri) == "error":
+                    continue        # a storage call failed and the caller was told so
                 if found_version(ri) != rec[(op.c, op.p)]:
                     fails.append(f"op {i}: child of {op.p} for client {op.c} is now {ri}, accepted was {rec[(op.c, op.p)]}")
         return fails
@@ -921,6 +934,12 @@ class C12(L1Prop):
             ops += [f"intrude {nth} 1 snap latest:1 b:9,{k3}", f"http POST av hyph=latest:1 hyph=1 history b:4,{k3}", "dump 1",
                     "http POST av hyph=latest:1 hyph=1 history b:5", "dump 1"]
             out.append(Case(f"c12-intrude-{k3}", ops, {"cfg": [d, v], "http": True, "intrude": True}, mode="http"))
+            if nth == 0:
+                # ... and right AFTER the request's transaction has committed: the urgency told is still the one of the record
+                # the version was accepted against (the snapshot came later)
+                ops2 = ops[:ops.index(f"intrude {nth} 1 snap latest:1 b:9,{k3}")] + [f"intrudeafter 0 1 snap stored b:9,{k3}", f"http POST av hyph=latest:1 hyph=1 history b:4,{k3}", "dump 1",
+                        "http POST av hyph=latest:1 hyph=1 history b:5", "dump 1"]
+                out.append(Case(f"c12-intrudeafter-{k3}", ops2, {"cfg": [d, v], "http": True, "only": "sqlite"}, mode="http"))
         # a data directory written by the pinned release: the age and the counter of a snapshot IT stored are
         # what the urgency of the next accepted versions is computed from
         def tail(name, c, nacc, snap, o):
@@ -1463,6 +1482,13 @@ class C10(L1Prop):
                 for tgt in ["nil", "fresh", "latest:2"] + [f"anc:1:{j}" for j in range(n)]:
                     ops += ["dump 1", f"http POST as hyph={tgt} hyph=1 snapshot b:200,{n}", "dump 1"]
                 out.append(Case(f"c10-http-{n}-{spos}", ops, {"http": True}, mode="http"))
+        # through the HTTP entry point with snapshot bodies of hundreds of kilobytes to megabytes (acceptance does not
+        # depend on the size of what is uploaded)
+        for j, nb in enumerate([262145, 300000, 1048577, 3000000]):
+            ops = ["http POST av hyph=nil hyph=1 history b:1", "http POST av hyph=latest:1 hyph=1 history b:2", "http POST av hyph=latest:1 hyph=1 history b:3",
+                   "dump 1", f"http POST as hyph=anc:1:1 hyph=1 snapshot big:{nb}:{1 + j % 2}", "dump 1", "dump 1", f"http POST as hyph=latest:1 hyph=1 snapshot big:{nb + 7}:2", "dump 1",
+                   "dump 1", "http POST as hyph=anc:1:2 hyph=1 snapshot big:270000:1", "dump 1"]
+            out.append(Case(f"c10-httpbig-{j}", ops, {"http": True}, mode="http"))
         # the stored snapshot carries a time AHEAD of the server's clock (stored while the clock ran fast, or
         # on another host): acceptance depends on chain positions only
         for n in (3, 6):
@@ -1644,6 +1670,15 @@ class C11(L1Prop):
                 ops += ["av 1 latest:1 b:2", f"as 1 latest:1 b:{','.join(str(x) for x in st[nm])}", "gs 1"]
             ops += ["reopen", "gs 1", "swalk 1"]
             out.append(Case(f"c11-content-{k // per}", ops))
+        # a long snapshot replaced by shorter ones whose length is an exact multiple of 1 MiB / 64 KiB / 4 KiB / a page, or
+        # nothing at all (through the library): exactly the new bytes come back, none of the old
+        MiB = 1048576
+        for j, seq in enumerate([[3 * MiB + 5, 2 * MiB, MiB, 5], [2 * MiB + 1, MiB, 65536, 4096], [MiB + 4096, MiB, 0, 7], [5 * 65536 + 3, 65536, 4096, 0]]):
+            ops = ["ensure 1", "av 1 nil b:1"]
+            for i, nb in enumerate(seq):
+                ops += ["av 1 latest:1 b:2", f"as 1 latest:1 {'e' if nb == 0 else 'z:%d:%d' % (nb, i + 1)}", "gs 1"]
+            ops += ["reopen", "gs 1"]
+            out.append(Case(f"c11-shrink-{j}", ops))
         # two snapshot uploads of ONE client in flight together on one worker, for an older and for a newer
         # version, the older one's body arriving more slowly (and the other way round): whatever the order in
         # which they are handled, what GetSnapshot returns afterwards is the upload for the newer version
@@ -2007,6 +2042,18 @@ class C18(L1Prop):
                 req = [f"av 1 latest:1 b:6,{idx}", f"as 1 latest:1 b:8,{idx}", "gcv 1 nil", f"av 1 nil b:7,{idx}", "gs 1"][(k + idx) % 5]
                 ops += ["dumpall", "rows", f"fault {idx}:before", req, "dumpall", "rows"]
             out.append(Case(f"c18-fault-{k}", ["dumpall", "rows"] + ops, {"only": "sqlite", "faults": True}))
+        # several server instances on one directory, used in turn: what one of them refuses (a stale parent, an old
+        # snapshot version — stale or old because ANOTHER instance moved on) changes nothing
+        for k in range(sizes(tier, 8, 50)):
+            ops = ["ensure 1", "av 1 nil b:1", "av 1 latest:1 b:2"]
+            for step in range(rng.randint(3, 8)):
+                a, b = rng.sample(range(3), 2)
+                ops += [f"inst {a}", f"av 1 latest:1 b:3,{step}", f"inst {b}", f"av 1 latest:1 b:4,{step}"]
+                if step % 2:
+                    ops += [f"inst {b}", "as 1 latest:1 b:9"]
+                ops += [f"inst {a}", "dumpall", "rows", f"av 1 anc:1:{1 + step % 2} b:5,{step}", "dumpall", "rows", "as 1 anc:1:6 b:8", "dumpall", "rows",
+                        "gcv 1 latest:1", "dumpall", "rows"]
+            out.append(Case(f"c18-inst-{k}", ["dumpall", "rows"] + ops, {"only": "sqlite"}))
         from .props_http import refusal_cases
         out += refusal_cases(rng, sizes(tier, 6, 60))
         return out
